@@ -190,7 +190,7 @@ def cmd_discover(args):
             print(f"   Suggested merchant: {merchant}")
             print()
             print(f"   {C.DIM}[{merchant}]")
-            print(f"   match: contains(\"{pattern}\")")
+            print(f"   match: regex({_rules_string_literal(pattern)})")
             print(f"   category: CATEGORY")
             print(f"   subcategory: SUBCATEGORY")
             if stats['has_negative']:
@@ -231,6 +231,15 @@ def suggest_pattern(description):
     if words:
         pattern = r'\s*'.join(words)
 
+    # The suggestion must match the description it was derived from. Text removed
+    # above (e.g. a "#1234" store number) may sit between the kept words.
+    for candidate in (pattern, r'.*?'.join(words), re.escape(description.strip())):
+        try:
+            if re.search(candidate, description, re.IGNORECASE):
+                return candidate
+        except re.error:
+            continue
+
     return pattern
 
 
@@ -262,12 +271,17 @@ def suggest_merchant_name(description):
     return 'Unknown'
 
 
+def _rules_string_literal(text):
+    """Quote text as a string literal of the rules language (escape backslashes and quotes)."""
+    return '"' + text.replace('\\', '\\\\').replace('"', '\\"') + '"'
+
+
 def suggest_merchants_rule(merchant_name, pattern, tags=None):
     """Generate a suggested rule block in .rules format."""
-    # Escape quotes in pattern if needed
-    escaped_pattern = pattern.replace('"', '\\"')
+    # The pattern is a regular expression (see suggest_pattern), so it needs regex(),
+    # not the literal substring test contains().
     rule = f"""[{merchant_name}]
-match: contains("{escaped_pattern}")
+match: regex({_rules_string_literal(pattern)})
 category: CATEGORY
 subcategory: SUBCATEGORY"""
     if tags:
